@@ -22,6 +22,10 @@ def bsStep (s : BSState) (ws : List String) : BSState × String :=
   | ["new", c] =>
     let cap := nat! c
     ({ cap := cap, buf := BitStream.clearBuf cap, wc := 0, rc := 0 }, "ok")
+  | ["new", c, _fill] =>
+    -- the prior contents of the buffer are irrelevant: the write stream's constructor clears it
+    let cap := nat! c
+    ({ cap := cap, buf := BitStream.clearBuf cap, wc := 0, rc := 0 }, "ok")
   | ["w", w, v] =>
     let w := nat! w; let v := nat! v
     if w = 0 || w > 32 || s.wc + w > s.cap then (s, "rejected") else
